@@ -568,7 +568,7 @@ impl<'a> Validator<'a> {
         while let Some(&b) = self.input.get(i) {
             match b {
                 b'\n' | b'\r' => break,
-                b'"' | b'\'' if super::after_separation(self.input, content_start, i) => {
+                b'"' | b'\'' if super::opens_quoted_node(self.input, content_start, i) => {
                     match super::quoted_span_end(self.input, i) {
                         super::QuotedSpanEnd::ClosedSameLine(end)
                         | super::QuotedSpanEnd::ClosedAcrossLines(end) => i = end,
